@@ -115,12 +115,15 @@ PROPS = {
     "C04": dict(
         level="proof",
         model_timeout=3600,
-        extra_lean_targets=["LdpcV.Props.C04Real", "LdpcV.Props.C04Table", "LdpcV.Props.C04Track"],
-        extra_prop_files=["LdpcV/Props/C04Real.lean", "LdpcV/Props/C04Table.lean", "LdpcV/Props/C04Track.lean"],
+        extra_lean_targets=["LdpcV.Props.C04Real", "LdpcV.Props.C04Table", "LdpcV.Props.C04Track", "LdpcV.Props.C04Round"],
+        extra_prop_files=["LdpcV/Props/C04Real.lean", "LdpcV/Props/C04Table.lean", "LdpcV/Props/C04Track.lean", "LdpcV/Props/C04Round.lean"],
         trusted_base=[KERNEL, CORR,
                       "8-bit rules: exact integer model lean/LdpcV/Model/ArithI8.lean (i8/i16 as Int with explicit overflow checks); the correction table is a "
                       "literal in the model and is compared entry by entry with the table read from the Debug text of every Rust arithmetic object",
-                      "float rules (phi, tanh, min*-approx, A-Min* in f32/f64): real-number semantics only; IEEE rounding is not bounded by any theorem"],
+                      "float rules (phi, tanh, min*-approx, A-Min* in f32/f64): real-number semantics (C04Real) and, for the min*-approx rule, the STANDARD MODEL "
+                      "of floating-point arithmetic (C04Round: every + - * / returns the exact result times (1+d), |d| <= u; exp / ln_1p relative accuracy e; "
+                      "negation, abs, max, min, comparisons exact; FpModel is a hypothesis structure, no axiom). That IEEE-754 round-to-nearest satisfies this model away "
+                      "from overflow / subnormal underflow / NaN, and the accuracy e of the platform's libm, are TRUSTED, not proved"],
         rule=("8-bit: all 16 types: degree 2 EXHAUSTIVE (255^2 vectors each), degree 3 sampled 1e5 (2e6 thorough), degrees 4-30 random incl. boundary vectors "
               "(all +-127, ties, zeros, hard-limit thresholds 99/100/101), degrees 0/1 (documented panic); exact comparison of the emitted (dest, value) sequence "
               "with the model and evaluation of the C04 predicate (one message per neighbour, sign rule, magnitude <= smallest other, hard-limit promotion, range, and "
@@ -132,18 +135,21 @@ PROPS = {
               "rule, <= smallest other; plus 6000 (100000) SEQUENCES of 2-5 check-node calls on ONE float arithmetic object with alternating high / low degrees; "
               "non-trivial = degree >= 2; distinct = distinct canonical input"),
         assumptions=COMMON_ASSUME,
-        partial=["IEEE rounding of the float rules is not bounded by any theorem (real-semantics theorems + tanh-domain comparison only)",
+        partial=["IEEE rounding: bounded by a theorem (C04Round, standard model, no overflow/underflow) for the min*-approx rule only — one message per neighbour, exact sign "
+                 "rule, magnitude <= b^(d-2) x smallest other, value within (d-2)*eta(B) of the real rule; for the phi, tanh and A-Min* rules rounding is covered by the "
+                 "tanh-domain comparison only",
                  "'within accumulated table rounding' is proved with explicit constants (C04Track): (steps)/2 units for the approximate fold, (steps) units for the "
                  "exact-form fold, (d-2)/2 resp. (d-1) units for the emitted messages of the whole rules against the same rule text at R on inputs / 8; with "
                  "partial hard limiting the bound is stated for emitted magnitudes below 100 only (the documented promotion)"],
     ),
     "C05": dict(
         level="proof",
-        extra_lean_targets=["LdpcV.Props.C05HL"],
-        extra_prop_files=["LdpcV/Props/C05HL.lean"],
+        extra_lean_targets=["LdpcV.Props.C05HL", "LdpcV.Props.C05Round"],
+        extra_prop_files=["LdpcV/Props/C05HL.lean", "LdpcV/Props/C05Round.lean"],
         trusted_base=[KERNEL, CORR,
                       "f64 inputs of the quantiser are modelled exactly on the IEEE-754 bit pattern (8*x exact, round half away from zero, saturating `as i8`, NaN -> 0)",
-                      "float variable rules (sum / total minus own) are not modelled"],
+                      "float variable rule: modelled by ArithF.varRule over the scalar record (compared bit for bit at Float / Float32); C05Round bounds its total under "
+                      "the standard model of floating-point arithmetic (|fl(x op y) - (x op y)| <= u |x op y|; trusted for IEEE-754 away from overflow / underflow)"],
         rule=("all 16 8-bit types: quantiser on special values (+-0, +-inf, NaN payloads, subnormals, 1e300, MAX), the six doubles around k/8 and (k+1/2)/8 for "
               "k in [-131,131], random magnitudes of every class and arbitrary random bit patterns; clip on ~9600 i16 values incl. all |x| <= 130; variable rule "
               "with degrees 0..200 (257 thorough) incl. all-127 / all--127 / alternating vectors and the overflow boundary (257 ok, 258+ must panic on both sides); "
@@ -269,16 +275,22 @@ PROPS = {
     ),
     "C14": dict(
         level="proof",
+        extra_lean_targets=["LdpcV.Props.C14Round"],
+        extra_prop_files=["LdpcV/Props/C14Round.lean"],
         trusted_base=[KERNEL + " (Mathlib real analysis: Real.exp/log/tanh/sqrt/cos/sin)", CORR,
                       "the theorems are about the REAL-NUMBER semantics of the formula text of lean/LdpcV/Model/Modulation.lean (the same generic definitions are "
-                      "instantiated at Float for the comparison with Rust); IEEE rounding of exp/ln_1p and of the arithmetic is not bounded by any theorem"],
+                      "instantiated at Float for the comparison with Rust); BPSK additionally under the standard model of floating-point arithmetic (C14Round.bpsk_rounded: "
+                      "relative error <= 4u/(1-4u), hard decision exact); that IEEE-754 satisfies that model away from overflow / underflow is trusted; the 8PSK "
+                      "demodulator's rounding (exp / ln_1p) is not bounded by any theorem"],
         rule=("modulators: all 8 bit triples, the empty string and 200 (4000 thorough) random bit strings of length 1-40 incl. lengths not divisible by 3 (documented "
               "panic), symbols compared bit for bit; demodulators: BPSK and 8PSK on a grid (|re|,|im| <= 6, step 0.5) x 9 noise levels in [0.05, 10] and 6000 "
               "(200000) random points with log-uniform sigma: Rust vs the Float instance of the generic model and vs a direct stabilised log-sum-exp evaluation of "
-              "the posterior log-ratio the property states (1e-9 relative + 1e-12 / 1e-9 absolute); noiseless hard decisions of modulated random strings; "
+              "the posterior log-ratio the property states (1e-9 relative + 1e-12 / 1e-9 absolute); every BPSK output additionally against the exact value -2r/sigma^2 "
+              "within the PROVED bound of four roundings, decided in exact integer arithmetic; noiseless hard decisions of modulated random strings; "
               "non-trivial = every demodulator case, modulator strings of >= 3 bits; distinct = distinct canonical input"),
         assumptions=COMMON_ASSUME,
-        partial=["IEEE rounding (float vs real) is covered only by the numeric comparison, not by a theorem"],
+        partial=["IEEE rounding: BPSK is bounded by a theorem under the standard model (C14Round) and the bound is DECIDED EXACTLY (integer arithmetic on the f64 bit "
+                 "patterns, u = 2^-53) on every BPSK output of the implementation; 8PSK rounding is covered only by the numeric comparison"],
     ),
     "C12": dict(
         level="proof",
